@@ -1813,13 +1813,32 @@ class Normaliser:
                 # for x in (E for y in S if C): B   ->   for y in S: if C: x = E; B
                 if isinstance(st, ast.For) and not st.orelse and isinstance(st.iter, ast.GeneratorExp) and \
                         len(st.iter.generators) == 1 and not st.iter.generators[0].is_async and \
-                        isinstance(st.target, ast.Name) and isinstance(st.iter.generators[0].target, (ast.Name, ast.Tuple)):
+                        (isinstance(st.target, ast.Name) or (isinstance(st.target, ast.Tuple) and all(
+                            isinstance(e_, ast.Name) for e_ in st.target.elts))) \
+                        and isinstance(st.iter.generators[0].target, (ast.Name, ast.Tuple)):
                     g3 = st.iter.generators[0]
                     ynames = {n_.id for n_ in ast.walk(g3.target) if isinstance(n_, ast.Name)}
                     others = {n_.id for n_ in ast.walk(fn) if isinstance(n_, ast.Name)
                               and not _contains(st.iter, n_)} | {a_.arg for a_ in ast.walk(fn) if isinstance(a_, ast.arg)}
                     inner_scopes = any(isinstance(n_, ScopeT + CompT) for n_ in ast.walk(st.iter.elt)) or any(
                         isinstance(n_, ScopeT + CompT) for c_ in g3.ifs for n_ in ast.walk(c_))
+                    if (ynames & others) and not inner_scopes and all(
+                            isinstance(n_, ast.Name) for n_ in ast.walk(g3.target) if not isinstance(n_, (ast.Tuple, ast.expr_context))):
+                        # the expression's own variables are renamed apart from the function's names
+                        every = others | ynames
+                        ren: Dict[str, ast.expr] = {}
+                        for y_ in sorted(ynames & others):
+                            k_ = 1
+                            while "%s_g%d" % (y_, k_) in every:
+                                k_ += 1
+                            every.add("%s_g%d" % (y_, k_))
+                            ren[y_] = ast.Name(id="%s_g%d" % (y_, k_), ctx=ast.Load())
+                        st.iter.elt = _Subst(ren).visit(st.iter.elt)
+                        g3.ifs = [_Subst(ren).visit(c_) for c_ in g3.ifs]
+                        for n_ in ast.walk(g3.target):
+                            if isinstance(n_, ast.Name) and n_.id in ren:
+                                n_.id = ren[n_.id].id     # type: ignore[attr-defined]
+                        ynames = {n_.id for n_ in ast.walk(g3.target) if isinstance(n_, ast.Name)}
                     if not (ynames & others) and not inner_scopes:
                         bind = ast.copy_location(ast.Assign(targets=[st.target], value=st.iter.elt), st)
                         body3: List[ast.stmt] = [bind] + list(st.body)
